@@ -207,6 +207,7 @@ extern "C" int setsockopt(int fd, int l, int o, const void* v, socklen_t n) { RE
 extern "C" int getsockopt(int fd, int l, int o, void* v, socklen_t* n) { REAL(int, getsockopt, int, int, int, void*, socklen_t*); if (!isv(fd)) return real(fd, l, o, v, n); if (!get(fd)) { errno = EBADF; return -1; } if (v && n && *n >= sizeof(int)) *(int*)v = 0; return 0; }
 static int fill_addr(VS* s, struct sockaddr* a, socklen_t* len, int port) {
 	if (!s) { errno = EBADF; return -1; }
+	if (s->family == AF_UNIX) { sockaddr_un un; memset(&un, 0, sizeof un); un.sun_family = AF_UNIX; strncpy(un.sun_path, s->path, sizeof un.sun_path - 1); socklen_t k = *len < sizeof un ? *len : (socklen_t)sizeof un; memcpy(a, &un, k); *len = sizeof un; return 0; }
 	sockaddr_in in; memset(&in, 0, sizeof in); in.sin_family = AF_INET; in.sin_port = htons((uint16_t)port); in.sin_addr.s_addr = htonl(0x7f000001);
 	socklen_t k = *len < sizeof in ? *len : (socklen_t)sizeof in; memcpy(a, &in, k); *len = sizeof in;
 	return 0;
